@@ -114,11 +114,15 @@ def run_job(job):
                 cwd, frm = os.path.join(w, "elsewhere"), "../" + root_name
             mode = rng.choice(["", " bfs", " dfs"])
             follow = rng.random() < 0.8
-            window = ""
+            window = neutral = ""
             if rng.random() < 0.2:
                 window = rng.choice([" maxdepth 2", " mindepth 2", " maxdepth 3", " mindepth 1 maxdepth 2"])
+            elif rng.random() < 0.25:
+                # a window that excludes nothing (every entry is at least one level below the root, none is 90 levels deep):
+                # judged like no window at all
+                neutral = rng.choice([" mindepth 1", " mindepth 1", " mindepth 0", " maxdepth 90", " mindepth 1 maxdepth 90", " maxdepth 0"])
             opt = rng.choice([" symlinks", " sym", " SYMLINKS"]) if follow else ""
-            query = "path from %s%s%s%s into list" % (quote_path(frm), window, opt, mode)
+            query = "path from %s%s%s%s into list" % (quote_path(frm), window or neutral, opt, mode)
             r = runner.run([query], cwd=cwd, home=home, trace=(qi % 2 == 0))
             res.ev()
             ctx = {"query": query, "cwd": os.path.relpath(cwd, w), "links": [(os.path.relpath(l, w), k, os.readlink(l)) for l, k in links],
@@ -144,7 +148,7 @@ def run_job(job):
                         res.viol("without `symlinks`: rows differ from the plain walk (status %s, +%d/-%d)" % (
                             r.rc, len(set(got) - set(want)), len(set(want) - set(got))), ctx)
                         continue
-                    res.cover("cases", "no-follow")
+                    res.cover("cases", "no-follow" + ("-neutral-window" if neutral else ""))
                     res.nt("nofollow|%s|%s" % (sorted(k for _l, k in links), spelling))
                 continue
             # safety clauses (always): every row names an existing entry, no identity twice, nothing unreachable
@@ -188,7 +192,7 @@ def run_job(job):
             res.count("hook_dir_events", sum(canon.values()))
             for _l, k in links:
                 res.cover("link_kinds", k)
-            res.cover("cases", "follow" + ("-window" if window else ""))
+            res.cover("cases", "follow" + ("-window" if window else "-neutral-window" if neutral else ""))
             res.cover("spelling", spelling)
             behind = len(real_dirs) - sum(1 for dp, dn, fn in os.walk(root) for _ in [0])
             if len(real_dirs) > 1:
@@ -202,8 +206,8 @@ def run_job(job):
 
 def main(chk):
     quick = chk.tier == "quick"
-    n = 400 if quick else 3000
-    jobs = [{"id": "j%d" % i, "seed": job_seed(chk.seed, "C18", i), "queries": 5 if quick else 12} for i in range(n)]
+    n = 1600 if quick else 6000
+    jobs = [{"id": "j%d" % i, "seed": job_seed(chk.seed, "C18", i), "queries": 6 if quick else 12} for i in range(n)]
     chk.run_jobs(jobs, budget_s=420 if quick else 3000)
     return chk.finish(
         rule="random trees decorated with 1..8 links: absolute and relative targets, to directories inside / outside / above the root, to "
@@ -213,6 +217,6 @@ def main(chk):
              "identity reachable through directories and links-to-directories listed (no depth window), status 0 and empty stderr; without "
              "the option: exactly the plain walk. Non-trivial = a directory behind a link is reachable; distinct by (link kinds, spelling, "
              "mode, identities).",
-        assumptions=["reachability is computed with os.path.realpath / os.path.isdir on the harness side", "with a depth window only the safety clauses are judged"],
-        require={"link_kinds": 11, "cases": 3, "spelling": 4},
+        assumptions=["reachability is computed with os.path.realpath / os.path.isdir on the harness side", "with a depth window only the safety clauses are judged, except windows that exclude nothing (mindepth 0/1, maxdepth 0/90), which are judged like no window"],
+        require={"link_kinds": 11, "cases": 5, "spelling": 4},
     )
